@@ -360,10 +360,49 @@ func (f *posaFam) canonLine() (line string, height uint64, head ecommon.Hash, td
 	}
 	hd, sum, err := f.rt.canon(ns, ch)
 	if err != nil || hd == nil {
-		return fmt.Sprintf("h=%d head=nil", ch), ch, ecommon.Hash{}, 0, false
+		return fmt.Sprintf("h=%d head=nil %s", ch, f.canonDigest()), ch, ecommon.Hash{}, 0, false
 	}
 	hh := hd.Hash()
-	return fmt.Sprintf("h=%d head=%s td=%s", ch, f.label(hh), sum.String()), ch, hh, sum.Uint64(), true
+	return fmt.Sprintf("h=%d head=%s td=%s %s", ch, f.label(hh), sum.String(), f.canonDigest()), ch, hh, sum.Uint64(), true
+}
+
+// canonRange is the height range ever touched in the case: two below the trust root up to two above the highest
+// number submitted so far.
+func (f *posaFam) canonRange() (lo, hi uint64) {
+	if g, ok := f.nodes[f.genesis]; ok && g.num >= 2 {
+		lo = g.num - 2
+	}
+	return lo, f.maxNum + 2
+}
+
+// canonDigest: number of canonical assignments (raw MAIN_CHAIN reads over the whole range) and a position-sensitive
+// checksum of (height, label), so that the model comparison sees every assignment after every op.
+func (f *posaFam) canonDigest() string {
+	lo, hi := f.canonRange()
+	cnt, sum := 0, uint64(0)
+	for h := lo; h <= hi; h++ {
+		if hash, ok := f.rawCanon(h); ok {
+			cnt++
+			id := uint64(0)
+			if v, err := strconv.ParseUint(f.label(hash), 10, 32); err == nil {
+				id = v
+			}
+			sum = (sum + (h*1000003+id)*(h+13)) % 1000000007
+		}
+	}
+	return fmt.Sprintf("cn=%d/%d", cnt, sum)
+}
+
+func (f *posaFam) rawHeight() (uint64, bool) {
+	raw, err := f.db.Get(utils.ConcatKey(utils.HeaderSyncContractAddress, []byte(hscommon.CURRENT_HEADER_HEIGHT), utils.GetUint64Bytes(posaChainID)))
+	if err != nil || raw == nil {
+		return 0, false
+	}
+	b, err := cstates.GetValueFromRawStorageItem(raw)
+	if err != nil || len(b) != 8 {
+		return 0, false
+	}
+	return utils.GetBytesUint64(b), true
 }
 
 func chunk20(b []byte) []ecommon.Address {
@@ -481,17 +520,24 @@ func (f *posaFam) oracle(r *hx.Run, n *posaNode, parentStoredBefore bool) {
 	}
 }
 
-// canonOracle: the canonical head is a stored header of maximal total difficulty (reference sums) and the canonical
-// assignments are parent-linked from the head down (depth entries, 0 = down to the trust root).
-func (f *posaFam) canonOracle(r *hx.Run, depth int) {
+// canonOracle (after every op, raw reads only, independent of the handler's getters): the canonical height points at
+// a stored header of maximal total difficulty (reference sums over the harness's own tree); the canonical index from the
+// trust root up to that head is exactly the head's parent chain; nothing else is indexed anywhere in the height range
+// ever touched in the case (in particular nothing above the canonical height).
+func (f *posaFam) canonOracle(r *hx.Run, _ int) {
 	rt := f.rt.name
-	_, height, head, td, ok := f.canonLine()
+	height, ok := f.rawHeight()
 	if !ok {
-		r.Viol("C29:"+rt+":canonical-head-missing", "the canonical height has no readable canonical header")
+		r.Viol("C29:"+rt+":canonical-head-missing", "no canonical height is recorded")
+		return
+	}
+	head, have := f.rawCanon(height)
+	if !have {
+		r.Viol("C29:"+rt+":canonical-head-missing", fmt.Sprintf("the canonical height %d has no canonical assignment", height))
 		return
 	}
 	hl, known := f.byHash[head]
-	if !known || !f.nodes[hl].stored {
+	if !known || !f.nodes[hl].stored || !f.rawStored(head) {
 		r.Viol("C29:"+rt+":canonical-head-not-stored", "the canonical head is not a stored header of this history")
 		return
 	}
@@ -502,26 +548,36 @@ func (f *posaFam) canonOracle(r *hx.Run, depth int) {
 		}
 	}
 	hn := f.nodes[hl]
-	if hn.refTD != td || hn.num != height {
+	if _, _, _, td, ok := f.canonLine(); !ok || hn.refTD != td || hn.num != height {
 		r.Viol("C29:"+rt+":canonical-td-bookkeeping", fmt.Sprintf("head %s: recorded total difficulty %d at height %d, reference %d at number %d", hl, td, height, hn.refTD, hn.num))
 	}
 	if hn.refTD < best {
 		r.Viol("C29:"+rt+":canonical-not-max-td", fmt.Sprintf("canonical head %s has total difficulty %d but a stored header has %d", hl, hn.refTD, best))
 	}
-	cur := hn
-	for i := 0; !cur.isGen && (depth == 0 || i < depth); i++ {
-		ch, have := f.rawCanon(cur.num - 1)
-		if !have || ch != cur.phash {
-			r.Viol("C29:"+rt+":canonical-not-parent-linked", fmt.Sprintf("canonical entry at %d is not the parent of the canonical header %s at %d", cur.num-1, cur.id, cur.num))
-			return
-		}
-		cur = f.nodes[cur.parent]
-		if cur == nil {
-			return
+	// the expected index: the head's parent chain
+	want := map[uint64]ecommon.Hash{}
+	for cur := hn; cur != nil; cur = f.nodes[cur.parent] {
+		want[cur.num] = cur.hash
+		if cur.isGen {
+			break
 		}
 	}
-	if _, have := f.rawCanon(height + 1); have {
-		r.Viol("C29:"+rt+":canonical-entry-above-head", fmt.Sprintf("a canonical assignment exists at %d above the canonical height %d", height+1, height))
+	lo, hi := f.canonRange()
+	for h := lo; h <= hi; h++ {
+		got, have := f.rawCanon(h)
+		w, expected := want[h]
+		switch {
+		case have && h > height:
+			r.Viol("C29:"+rt+":canonical-entry-above-head", fmt.Sprintf("a canonical assignment (%s) exists at %d above the canonical height %d", f.label(got), h, height))
+			return
+		case have && !expected:
+			r.Viol("C29:"+rt+":canonical-entry-below-root", fmt.Sprintf("a canonical assignment (%s) exists at %d outside the chain of the head %s", f.label(got), h, hl))
+			return
+		case expected && (!have || got != w):
+			r.Viol("C29:"+rt+":canonical-not-parent-linked", fmt.Sprintf("the canonical assignment at %d is %s, the ancestor of the canonical head %s (height %d) at that number is %s",
+				h, map[bool]string{true: f.label(got), false: "missing"}[have], hl, height, f.label(w)))
+			return
+		}
 	}
 }
 
